@@ -173,6 +173,8 @@ class Kernel:
         self.main_thread = threading.get_ident()
         self.git_calls = []
         self.installed = False
+        self.kill_terminates = True
+        self.on_block = None      # called when the main thread would block in read()
 
     # ---- bookkeeping
     def tick(self):
@@ -266,6 +268,17 @@ class Kernel:
         e = self.ev("exit", p.pid, p.name, p.status)
         p.t_exit = e[1]
 
+    def release_children(self):
+        """The command is over: whatever children are still running lose their
+        stdio (as if they ended), so that reader threads see EOF."""
+        for p in self.procs.values():
+            for fd in p.fds.values():
+                try:
+                    os.close(fd)
+                except OSError:
+                    pass
+            p.fds = {}
+
     def deliver(self):
         if self.pending and self.handler is not None and not self.in_handler:
             self.pending = False
@@ -330,18 +343,20 @@ class Kernel:
                 # PEP 475: the handler runs, then the read is retried
                 self.deliver()
                 continue
+            if self.on_block is not None:
+                self.on_block(self, fd)
             run = self.running()
             if not run:
                 self.ev("deadlock", fd)
                 raise Deadlock("blocked in read(%d): nothing pending, no running child" % fd)
             self.exit_child(self.sched.pick_exit(self, run))
-            if not self.adversarial:
-                self.deliver()
-            elif self.sched.deliver_now(self, "read_blocked"):
-                self.deliver()
-            elif not self.running():
-                # nothing else can happen: the kernel delivers eventually
-                self.deliver()
+            if self.adversarial:
+                # one SIGCHLD may stand for several exits
+                more = self.running()
+                if more:
+                    for p in self.sched.exits_now(self, "read_batch", more):
+                        self.exit_child(p)
+            self.deliver()
 
     def getpgid(self, pid):
         p = self.procs.get(pid)
@@ -359,6 +374,16 @@ class Kernel:
             raise ProcessLookupError(errno.ESRCH, "No such process")
         e = self.ev("killpg", pgid, p.name, int(sig))
         p.killed.append((e[1], int(sig)))
+        if p.state == "run" and self.kill_terminates and int(sig) in (int(signal.SIGTERM), int(signal.SIGKILL), int(signal.SIGINT)):
+            # default disposition: the task's process group dies, its pipes close
+            p.status = int(sig)          # real wait-status encoding of 'killed by sig'
+            for fd in p.fds.values():
+                os.close(fd)
+            p.fds = {}
+            p.state = "zombie"
+            self.pending = True
+            e = self.ev("exit", p.pid, p.name, p.status)
+            p.t_exit = e[1]
 
     def kill(self, pid, sig):
         if pid in self.procs:
